@@ -138,7 +138,7 @@ def c02_2(ctx: Ctx):
     # it must run for every split (not only code blocks), after new_block exists
     lin = linear(fi.node)
     g = lin.of(lp)
-    ctx.check(g.guard == TRUE, fi, lp, "runs for every split (code and data)", f"runs only under {f_show(g.guard)}")
+    ctx.check(g.top, fi, lp, "runs for every split (code and data)", f"runs only under {f_show(g.guard)}")
 
 
 SPEC_KEEP = [
